@@ -3,7 +3,10 @@ pub mod hist;
 #[cfg(feature = "likely")]
 pub mod likelyeng;
 pub mod parse;
+pub mod raw;
+pub mod rel;
 pub mod subtags;
+pub mod total;
 #[cfg(feature = "likely")]
 pub mod tables;
 pub mod universe;
@@ -28,6 +31,7 @@ fn c09_replay_json(v: &serde_json::Value) -> Vec<Fail> {
 
 pub fn engines() -> Vec<Engine> {
     vec![
+        Engine { name: "c01", prop: "C01", run: total::run_c01, replay_bytes: Some(total::c01_replay), replay_json: None },
         Engine { name: "c02", prop: "C02", run: parse::run_c02, replay_bytes: Some(parse::c02_check), replay_json: None },
         Engine { name: "c03", prop: "C03", run: parse::run_c03, replay_bytes: Some(parse::c03_check), replay_json: None },
         Engine { name: "c04", prop: "C04", run: hist::run_c04, replay_bytes: Some(parse::c04_check), replay_json: Some(hist::c04_replay_json) },
@@ -42,9 +46,13 @@ pub fn engines() -> Vec<Engine> {
         Engine { name: "likely_miri", prop: "C06", run: likelyeng::run_likely_miri, replay_bytes: None, replay_json: Some(likelyeng::c07_replay) },
         Engine { name: "c09", prop: "C09", run: parse::run_c09, replay_bytes: Some(parse::c09_check_masks), replay_json: Some(c09_replay_json) },
         Engine { name: "c10", prop: "C10", run: hist::run_c10, replay_bytes: None, replay_json: Some(hist::c10_replay) },
+        Engine { name: "c11", prop: "C11", run: rel::run_c11, replay_bytes: None, replay_json: Some(rel::c11_replay) },
+        Engine { name: "c12", prop: "C12", run: rel::run_c12, replay_bytes: None, replay_json: Some(rel::c12_replay) },
         Engine { name: "c13", prop: "C13", run: parse::run_c13, replay_bytes: Some(parse::c13_check), replay_json: None },
         Engine { name: "c14", prop: "C14", run: dir::run_c14, replay_bytes: None, replay_json: Some(dir::c14_replay) },
         Engine { name: "c15", prop: "C15", run: subtags::run_c15, replay_bytes: Some(subtags::c15_replay), replay_json: None },
+        Engine { name: "c17", prop: "C17", run: raw::run_c17, replay_bytes: None, replay_json: Some(raw::c17_replay) },
+        Engine { name: "c19", prop: "C19", run: raw::run_c19, replay_bytes: Some(raw::c19_check_str), replay_json: Some(raw::c19_replay) },
         #[cfg(feature = "likely")]
         Engine { name: "c18", prop: "C18", run: tables::run_c18, replay_bytes: None, replay_json: None },
     ]
